@@ -76,7 +76,7 @@ def forkItems (e : Lbl) : List Lbl → List Gen → Gen
   | l :: ls, g :: gs, c =>
     let a := g c
     let r := forkItems e ls gs a.2
-    (.label l :: a.1 ++ .goto e :: r.1, r.2)
+    (.label l :: a.1 ++ .jump e :: r.1, r.2)
   | _, _, c => ([], c)
 
 def trailer (v : Variant) (u f e s : Lbl) (n : Nat) : List (Prim Lbl) :=
@@ -143,10 +143,10 @@ def whenGroups (S : Nat) (u : Lbl) (i : Nat) (ng : Nat) (thenG : Gen) : Nat → 
     let th := thenG body.2
     let rest := whenGroups S u i ng thenG (g + 1) cls th.2
     ([.label ("group_" ++ L ++ "_" ++ toString g ++ "_label_", S)] ++ body.1 ++
-      [.goto ("case_" ++ L ++ "_label_", S), .label ("case_" ++ L ++ "_label_", S), .merge u, .catchFail none,
+      [.jump ("case_" ++ L ++ "_label_", S), .label ("case_" ++ L ++ "_label_", S), .merge u, .catchFail none,
        .endScope ("scope_", S)] ++ th.1 ++
-      [.goto ("when_end_label_", S), .label ("failure_case_" ++ L ++ "_label_", S), .waitHeads ng, .catchFail none,
-       .goto ("when_else_label_", S)] ++ rest.1, rest.2)
+      [.jump ("when_end_label_", S), .label ("failure_case_" ++ L ++ "_label_", S), .waitHeads ng, .catchFail none,
+       .jump ("when_else_label_", S)] ++ rest.1, rest.2)
 
 def groupLabelsOf (S : Nat) (i : Nat) : Nat → Nat → List Lbl
   | _, 0 => []
@@ -156,7 +156,7 @@ def groupLabelsOf (S : Nat) (i : Nat) : Nat → Nat → List Lbl
 def whenElse (S : Nat) (u : Lbl) (ncases : Nat) (hasElse : Bool) (elseG : Gen) : Gen := fun c =>
   let el := if hasElse then elseG c else ([], c)
   ([.label ("when_else_label_", S), .waitHeads ncases, .merge u, .endScope ("scope_", S)] ++
-    (if hasElse then [.goto ("when_else_statement_label_", S), .label ("when_else_statement_label_", S)] ++ el.1 else [.abort]) ++
+    (if hasElse then [.jump ("when_else_statement_label_", S), .label ("when_else_statement_label_", S)] ++ el.1 else [.abort]) ++
     [.label ("when_end_label_", S)], el.2)
 
 /-- one case: `label init; catch failure_case; fork groups; <groups>; <else group>` -/
@@ -213,7 +213,7 @@ mutual
       let bl : Lbl := ("_while_begin_", c)
       let el : Lbl := ("_while_end_", c)
       let body := expand (some (bl, el)) b (c + 1)
-      ([.label bl, .goto el] ++ body.1 ++ [.goto bl, .label el], body.2)
+      ([.label bl, .goto el] ++ body.1 ++ [.jump bl, .label el], body.2)
     | .ifS t f, c =>
       -- two uids are drawn even when there is no else branch
       let elseL : Lbl := ("if_else_body_label_", c)
@@ -223,7 +223,7 @@ mutual
         ([.goto endL] ++ te.1 ++ [.label endL], te.2)
       else
         let fe := expand cb f te.2
-        ([.goto elseL] ++ te.1 ++ [.goto endL, .label elseL] ++ fe.1 ++ [.label endL], fe.2)
+        ([.goto elseL] ++ te.1 ++ [.jump endL, .label elseL] ++ fe.1 ++ [.label endL], fe.2)
     | .matchG d, c => matchGroup d c
     | .sendG d, c => sendGroup d c
     | .startS d, c => startGroup d c
